@@ -190,6 +190,11 @@ func prepare() {
 	mk("trailing", "p256-0", sthSize, sthTS, rt, func(s *sthT, k *pki.Key) { s.intact = false; s.sig = append(s.sig, 0) })
 	mk("wrongalg", "p256-0", sthSize, sthTS, rt, func(s *sthT, k *pki.Key) { s.intact = false; s.sig[1] = 1 })
 	mk("emptymsg", "p256-0", 0, 0, nil, func(s *sthT, k *pki.Key) { s.intact = false; s.sig = nil })
+	// the genuine signature bytes next to altered contents (a verifier that remembers signatures it has seen)
+	genuine := mat.sth["valid"].sig
+	mk("tampered-size", "p256-0", sthSize+1, sthTS, rt, func(s *sthT, k *pki.Key) { s.intact = false; s.sig = append([]byte(nil), genuine...) })
+	mk("tampered-timestamp", "p256-0", sthSize, sthTS+1, rt, func(s *sthT, k *pki.Key) { s.intact = false; s.sig = append([]byte(nil), genuine...) })
+	mk("tampered-root", "p256-0", sthSize, sthTS, mkRoot("another tree"), func(s *sthT, k *pki.Key) { s.intact = false; s.sig = append([]byte(nil), genuine...) })
 }
 
 func cleanup() { os.RemoveAll(mat.dir) }
@@ -357,6 +362,7 @@ func buildFields() {
 		{label: "absent", apply: func(c *configpb.LogConfig, t *truth) {}},
 		sth("valid", false), sth("valid-rsa", false), sth("valid-size0", true), sth("badsig", false), sth("root31", false),
 		sth("garbagesig", false), sth("trailing", true), sth("wrongalg", true), sth("emptymsg", false),
+		sth("tampered-size", false), sth("tampered-timestamp", true), sth("tampered-root", false),
 	}})
 
 	add(field{"not_after_start", tsValues(func(c *configpb.LogConfig, t *truth, ts *timestamppb.Timestamp, tt tsT) {
